@@ -10,7 +10,7 @@ Timer variant, within a cap on the total number of yields (see inline_suites); e
 readiness instant per selecting task - all explored; the scheduler's _random for the priority-0.5 task and the
 virtual time consumed per step - deviations) are explored with mc.engine.explore within a deviation bound.
 
-PART 2 (threaded select hub, E-thr).  Thirteen representative programs of the same grammar run with the scheduler
+PART 2 (threaded select hub, E-thr).  Fourteen representative programs of the same grammar run with the scheduler
 thread + the select-hub thread (+ an environment thread that lets virtual time reach the fd readiness instants)
 under the controlled-thread explorer mc/thr.py, every schedule within a deviation bound.
 
@@ -35,6 +35,9 @@ PID = "C06"
 T0 = 1000.0         # virtual epoch
 DT = 0.625          # virtual seconds a step may consume (dyadic, so all clock arithmetic is exact)
 FD_AT = (None, 0.5, 1.5)    # fd readiness scripts: never, at T0+0.5, at T0+1.5
+RX_STREAM = b"hello"                                    # what every task's socket has to read, from its readiness instant on
+TX_BIG = bytes((i * 7 + (i >> 8)) & 0xff for i in range(20000))     # > 2 blocks of Send's default block_size (8192)
+TX_SMALL = b"small"
 POLL = 1e8          # select timeouts >= POLL are the hub's polling interval (CYCLE_MAXIMUM is rebound to 1e9)
 MAX_STEPS = 120
 MAX_SELECTS = 300
@@ -69,6 +72,11 @@ OPS = {
   "Nu":  ("again", "nu", "yield Again(middle: yield Again(inner raising), not caught)"),
   "Ncs": ("again", "ncs", "yield Again(middle: catches what Again(inner: Sleep(1) then raises) throws; yields its own value)"),
   "Nus": ("again", "nus", "yield Again(middle: yield Again(inner: Sleep(1) then raises), not caught)"),
+  # socket I/O on the task's own (fake) stream socket
+  "Tx":  ("send", "big", "yield Send(sock, %d bytes)  [default block_size 8192: several rounds]" % 20000),
+  "Txs": ("send", "small", "yield Send(sock, 5 bytes)"),
+  "Rx":  ("recv", None, "yield Recv(sock)"),
+  "Rx1": ("recv", 1, "yield Recv(sock, timeout=1)"),
   "W":   ("wake", None, "schedule() every blocked/ready sibling; yield 0"),
   "C":   ("cancel", None, "cancel() every Timer; yield 0"),
   "X":   ("exit", None, "yield Exit()"),
@@ -76,9 +84,14 @@ OPS = {
 }
 OPS_QUICK = ("0", "n1", "S2", "SN", "F", "Se", "Se1", "Av", "As", "Ar", "Ae", "W", "X", "!")
 OPS_NESTED = ("Nv", "Nc", "Nu", "Ncs", "Nus")
-OPS_EXTRA = ("S1", "S0", "n.5", "Se0", "Asr", "Ase", "TF", "TFr") + OPS_NESTED      # thorough, in the programs of few yields
+OPS_EXTRA = ("S1", "S0", "n.5", "Se0", "Asr", "Ase", "TF", "TFr") + OPS_NESTED + ("Tx", "Txs", "Rx", "Rx1")      # thorough, in the programs of few yields
 # quick: the nested sub-task calls and the zero-timeout Select in a small context vocabulary
 OPS_NESTED_CTX = ("0", "n1", "S2", "Se0", "SN", "W", "!", "TF") + OPS_NESTED
+# socket I/O ops in a small context vocabulary
+OPS_IO = ("Tx", "Txs", "Rx", "Rx1")
+OPS_IO_CTX = ("0", "n1", "SN", "Se1", "W", "!") + OPS_IO
+# task priorities {1, 0.5} per task (every assignment) in a small context vocabulary
+OPS_PRIO = ("0", "n1", "S2", "SN", "Se1", "W", "Av")
 # sleepers (tied deadlines, a longer one, zero timeouts) for the 3-entity quick suite
 OPS_SLEEPERS = ("0", "n1", "S2", "Se0")
 TERMINAL = ("X", "!")                                      # nothing after them can run
@@ -121,7 +134,7 @@ class ProgSpace (object):
   """Every ordered tuple of nent entities (task script over ops, or Timer variant) whose scripts have <= maxlen
   yields each and <= total yields together, addressable by index (nothing is materialised).  "C" (cancel the
   timers) is only in the vocabulary of programs that contain a Timer (elsewhere it would be `yield 0`)."""
-  def __init__ (self, ops, nent, total, maxlen=3, timers=True):
+  def __init__ (self, ops, nent, total, maxlen=3, timers=True, prios=False):
     by_plain = scripts(ops, maxlen)
     by_c = scripts(tuple(ops) + ("C",), maxlen)
     shapes = []
@@ -137,7 +150,10 @@ class ProgSpace (object):
     n = 0
     for sh in shapes:
       by = by_c if any(e[0] == "T" for e in sh) else by_plain
-      slots = [[e] if e[0] == "T" else [("t", sc) for sc in by[e[1]]] for e in sh]
+      if prios:    # every assignment of a priority in {1, 0.5} to every task
+        slots = [[e] if e[0] == "T" else [("t", sc, pr) for sc in by[e[1]] for pr in (1, 0.5)] for e in sh]
+      else:        # positional default: entity 0 has priority 0.5, the others 1
+        slots = [[e] if e[0] == "T" else [("t", sc) for sc in by[e[1]]] for e in sh]
       size = 1
       for sl in slots: size *= len(sl)
       self.blocks.append((n, slots))
@@ -163,14 +179,19 @@ def programs (ops, nent, total, maxlen=3):
   return [sp[i] for i in range(len(sp))]
 
 
+def prio_of (i, e):
+  """Priority of task entity e at position i: explicit third element, else 0.5 for entity 0 and 1 for the others."""
+  return e[2] if len(e) > 2 else (0.5 if i == 0 else 1)
+
+
 def prog_text (prog):
   out = []
   for i, e in enumerate(prog):
     if e[0] == "T":
       out.append("E%d: %s" % (i, TIMERS[e[1]][2]))
     else:
-      out.append("E%d: task%s [%s]" % (i, " (Task subclass, priority 0.5)" if i == 0 else " (Task(target=...))",
-                                        "; ".join(OPS[o][2] for o in e[1]) or "returns at once"))
+      out.append("E%d: task (%s, priority %s) [%s]" % (i, "Task subclass" if i == 0 else "Task(target=...)", prio_of(i, e),
+                                                       "; ".join(OPS[o][2] for o in e[1]) or "returns at once"))
   return " | ".join(out)
 
 
@@ -183,11 +204,43 @@ class SubError (Exception): pass
 
 
 class VFd (object):
-  """A selectable object that becomes (and stays) readable at a virtual instant."""
+  """A task's fake stream socket.  From its readiness instant on it has RX_STREAM to read (it stays readable until
+  that has been received); it is always writable.  How many bytes a send() accepts / a recv() hands out are
+  environment choices (default: everything; deviations: half, one byte, EAGAIN / one byte)."""
   def __init__ (self, w, name, ready_at):
     self.w = w; self.name = name; self.ready_at = ready_at
+    self.rx_pos = 0
+    self.tx = b""
+    self.eagain = 0               # number of send() calls answered with EAGAIN
+    self.sends = []               # (offered, accepted) per send() call
   def readable (self):
-    return self.ready_at is not None and self.ready_at <= self.w.now()
+    return self.ready_at is not None and self.ready_at <= self.w.now() and self.rx_pos < len(RX_STREAM)
+  def will_be_readable (self):
+    return self.ready_at is not None and self.rx_pos < len(RX_STREAM)
+  def writable (self): return True
+  def errored (self): return False
+  def fileno (self): return -1
+  def send (self, data, flags=0):
+    w = self.w
+    c = w.ctx.choose(4, "send@" + self.name) if w.env_choices else 0
+    n = len(data)
+    if c == 3:
+      self.eagain += 1; self.sends.append((n, "EAGAIN"))
+      import errno
+      raise OSError(errno.EAGAIN, "would block")
+    k = n if c == 0 else max(1, n // 2) if c == 1 else 1
+    self.tx += bytes(data[:k]); self.sends.append((n, k))
+    return k
+  def recv (self, n, flags=0):
+    w = self.w
+    if not self.readable():
+      import errno
+      raise OSError(errno.EAGAIN, "would block")
+    avail = min(n, len(RX_STREAM) - self.rx_pos)
+    k = avail
+    if avail > 1 and w.env_choices and w.ctx.choose(2, "recv@" + self.name): k = 1
+    d = RX_STREAM[self.rx_pos:self.rx_pos + k]; self.rx_pos += k
+    return d
   def __repr__ (self): return "<fd %s>" % self.name
 
 
@@ -204,6 +257,9 @@ class Rec (object):
     self.fd = None
     self.sub_done = False
     self.sub_req = None
+    self.prio = 1
+    self.tx_expect = b""        # what this task's completed Sends must have put on its socket, in order
+    self.rx_got = b""           # what its Recvs returned, concatenated
     self.steps = []             # (step, vtime)
     self.recv = []              # what each yield received
     self.style = None
@@ -228,6 +284,8 @@ class World (object):
     self.nsteps = 0
     self.nselect = 0
     self.nrand = 0
+    self.streak = 0               # further draws that are "high" (see rand)
+    self.n_low = 1
     self.ntwins = 0
     self.exited = False
     self.abort = None
@@ -252,7 +310,14 @@ class World (object):
     if self.nrand > 400:
       self.abort = "runaway"; raise Abort()
     if not self.env_choices: return 0.0
-    return 0.99 if self.ctx.choose(2, "random") else 0.0
+    # environment: 0 = a low draw (the task runs); k>0 = this and the next k-1 draws are high (tasks of priority < 1
+    # are passed over); run lengths up to the number of low-priority tasks of the program, one deviation each
+    if self.streak > 0:
+      self.streak -= 1; return 0.99
+    c = self.ctx.choose(1 + self.n_low, "random")
+    if c:
+      self.streak = c - 1; return 0.99
+    return 0.0
 
   def begin (self, who):
     if self.running is not None:
@@ -291,12 +356,16 @@ class World (object):
     _subs(R)                     # (built outside the execution: task_function() is itself code under trace)
     for idx, e in enumerate(self.prog):
       r = Rec(idx, "t" if e[0] == "t" else "T", e[1])
+      if r.kind == "t": r.prio = prio_of(idx, e)
       self.recs.append(r)
+    self.n_low = max(1, sum(1 for r in self.recs if r.kind == "t" and r.prio < 1))
     # environment: readiness instant of each selecting task's fd
     for r in self.recs:
-      if r.kind == "t" and any(OPS[o][0] == "select" for o in r.spec):
+      if r.kind == "t" and any(OPS[o][0] in ("select", "recv", "send") for o in r.spec):
         if self.fd_at is not None:
           at = self.fd_at.get(r.idx)
+        elif not any(OPS[o][0] in ("select", "recv") for o in r.spec):
+          at = None
         else:
           at = FD_AT[self.ctx.choose(len(FD_AT), "fd@%s" % r.name, costly=False)]
         r.fd = VFd(self, r.name, None if at is None else T0 + at)
@@ -306,12 +375,12 @@ class World (object):
           r.style = "subclass"
           r.obj = cls["ProgTask"](self, r)
           r.state = "ready"
-          r.obj.start(sch, priority=0.5, fast=True)
+          r.obj.start(sch, priority=r.prio, fast=True)
         else:
           r.style = "target"
           r.obj = R.Task(target=body, args=(self, r), name=r.name)
           r.state = "ready"
-          r.obj.start(sch, fast=True)
+          r.obj.start(sch, priority=r.prio, fast=True)
       else:
         recurring, expect, _ = TIMERS[r.spec]
         r.created = self.now()
@@ -360,6 +429,15 @@ class World (object):
       r.req = None if arg is None else ty + arg
       r.state = "select"
       return R.Select([r.fd], None, None, arg)
+    if kind == "send":
+      data = TX_BIG if arg == "big" else TX_SMALL
+      r.tx_expect += data; r.state = "send"
+      r.eagain_before = r.fd.eagain
+      return R.Send(r.fd, data)
+    if kind == "recv":
+      r.req = None if arg is None else ty + arg
+      r.state = "recv"
+      return R.Recv(r.fd, timeout=arg)
     if kind == "exit":
       r.state = "exit"; self.exited = True
       return R.Exit()
@@ -384,6 +462,8 @@ class World (object):
       got = ("subval", v[1], v[2])
     elif isinstance(v, tuple) and len(v) == 3 and all(isinstance(x, list) for x in v):
       got = ("sel", tuple(len(x) for x in v))
+    elif isinstance(v, (bytes, bytearray)):
+      got = ("bytes", len(v))
     else:
       got = ("v", repr(v))
     r.recv.append((i, got, now))
@@ -416,6 +496,31 @@ class World (object):
           if r.req is None or now < r.req:
             self.fail("select-wake:empty-before-timeout", "%s resumed at +%s from Select with no fd ready; timeout %s"
                       % (r.name, now - T0, "None" if r.req is None else "at +%s" % (r.req - T0)))
+    elif kind == "send":
+      n = len(TX_BIG if arg == "big" else TX_SMALL)
+      if r.fd.tx != r.tx_expect:
+        sent = r.fd.tx
+        k = next((j for j in range(min(len(sent), len(r.tx_expect))) if sent[j] != r.tx_expect[j]), min(len(sent), len(r.tx_expect)))
+        self.fail("send:resumed-before-all-bytes-were-sent" if r.tx_expect.startswith(sent) else "send:bytes-out-of-order",
+                  "%s resumed from Send of %d bytes with %r; its socket has taken %d of the %d bytes due so far (first difference at %d); send() calls: %r"
+                  % (r.name, n, v if not isinstance(v, tuple) else "a select result", len(sent), len(r.tx_expect), k, r.fd.sends[-4:]))
+      elif v != n:
+        self.fail("send:wrong-result", "%s resumed from a completed Send of %d bytes with %r" % (r.name, n, v))
+    elif kind == "recv":
+      if isinstance(v, (bytes, bytearray)) and len(v) > 0:
+        want = RX_STREAM[len(r.rx_got):len(r.rx_got) + len(v)]
+        if bytes(v) != want or r.fd.rx_pos != len(r.rx_got) + len(v):
+          self.fail("recv:wrong-bytes", "%s resumed from Recv with %r; the stream continues with %r (socket position %d)"
+                    % (r.name, v, RX_STREAM[len(r.rx_got):], r.fd.rx_pos))
+        r.rx_got += bytes(v)
+        if r.fd.ready_at is None or now < r.fd.ready_at:
+          self.fail("recv:data-before-readable", "%s received %r at +%s, before its socket had anything to read" % (r.name, v, now - T0))
+      elif v is None:
+        if r.req is None or now < r.req:
+          self.fail("recv:empty-before-timeout", "%s resumed at +%s from Recv with None; timeout %s"
+                    % (r.name, now - T0, "None" if r.req is None else "at +%s" % (r.req - T0)))
+      else:
+        self.fail("recv:bad-value", "%s resumed from Recv with %r" % (r.name, v))
     elif kind == "again":
       key = SHAPE_KEY[arg]
       want = SHAPE_EXPECT[arg]
@@ -492,7 +597,13 @@ class World (object):
           self.fail("lost-wake:" + ("number" if OPS[r.op][0] == "num" else "Sleep"), what)
         elif s == "select":
           if r.req is not None: self.fail("lost-wake:Select-timeout", what)
-          elif r.fd.ready_at is not None: self.fail("lost-wake:Select-fd-readable", what + "; fd readable at +%s" % (r.fd.ready_at - T0))
+          elif r.fd.will_be_readable(): self.fail("lost-wake:Select-fd-readable", what + "; fd readable at +%s" % (r.fd.ready_at - T0))
+        elif s == "recv":
+          if r.req is not None: self.fail("lost-wake:Recv-timeout", what)
+          elif r.fd.will_be_readable(): self.fail("lost-wake:Recv-readable", what + "; socket readable at +%s" % (r.fd.ready_at - T0))
+        elif s == "send":
+          self.fail("lost-wake:Send" + (":after-a-send()-that-took-nothing" if r.fd.eagain > r.eagain_before else ""),
+                    what + "; the socket took %d of %d bytes; send() calls: %r" % (len(r.fd.tx), len(r.tx_expect), r.fd.sends[-4:]))
         elif s == "again":
           arg = OPS[r.op][1]
           key = SHAPE_KEY[arg]
@@ -513,7 +624,8 @@ class World (object):
     for r in self.recs:
       if r.kind == "t":
         if r.state in ("new", "ready", "timed", "again", "running"): return True
-        if r.state == "select" and (r.req is not None or r.fd.ready_at is not None): return True
+        if r.state in ("select", "recv") and (r.req is not None or r.fd.will_be_readable()): return True
+        if r.state == "send": return True
       elif r.cancel_seq is None and len(r.fires) < TIMERS[r.spec][1]:
         return True
     return False
@@ -524,7 +636,7 @@ class World (object):
     for r in self.recs:
       if r.idx == exclude: continue
       if r.kind == "t":
-        out.append((r.name, tuple(r.steps), tuple((i, g) for i, g, t in r.recv), r.state))
+        out.append((r.name, tuple(r.steps), tuple((i, g) for i, g, t in r.recv), r.state) + ((tuple(r.fd.sends),) if r.fd is not None and r.fd.sends else ()))
       else:
         out.append((r.name, tuple(t for s, t in r.fires)))
     return tuple(out)
@@ -533,7 +645,8 @@ class World (object):
     lines = [prog_text(self.prog)]
     for r in self.recs:
       if r.fd is not None:
-        lines.append("  %s's fd readable: %s" % (r.name, "never" if r.fd.ready_at is None else "at +%s" % (r.fd.ready_at - T0)))
+        lines.append("  %s's fd/socket readable: %s%s" % (r.name, "never" if r.fd.ready_at is None else "at +%s" % (r.fd.ready_at - T0),
+                                                      "; send() calls (offered, accepted): %r" % (r.fd.sends,) if r.fd.sends else ""))
     lines.append("  trace (entity, step, virtual time): " + ", ".join("%s.%s@+%s" % (n, s, t - T0) for n, s, t in self.trace))
     for r in self.recs:
       if r.kind == "t":
@@ -722,11 +835,12 @@ class VSelect (object):
       w.abort = w.abort or "runaway"
       w.sch._hasQuit = True
       return [], [], []
-    rl = list(rl)
+    rl = list(rl); wl = list(wl)
     ro = self._ready(rl)
-    if ro: return ro, [], []
+    wo = [o for o in wl if isinstance(o, VFd) and o.writable()]
+    if ro or wo: return ro, wo, []
     now = self.clock.now
-    cands = [o.ready_at for o in rl if isinstance(o, VFd) and o.ready_at is not None]
+    cands = [o.ready_at for o in rl if isinstance(o, VFd) and o.will_be_readable()]
     if timeout is not None and timeout < POLL:
       cands.append(now + max(0, timeout))
     if not cands:
@@ -850,10 +964,10 @@ def _inline_worker (item):
 
 
 def _prog_to_json (prog):
-  return [[e[0], list(e[1]) if isinstance(e[1], tuple) else e[1]] for e in prog]
+  return [[e[0], list(e[1]) if isinstance(e[1], tuple) else e[1]] + list(e[2:]) for e in prog]
 
 def _prog_from_json (p):
-  return tuple((e[0], tuple(e[1]) if isinstance(e[1], list) else e[1]) for e in p)
+  return tuple((e[0], tuple(e[1]) if isinstance(e[1], list) else e[1]) + tuple(e[2:]) for e in p)
 
 
 def inline_suites (cfg):
@@ -861,14 +975,20 @@ def inline_suites (cfg):
   if cfg.quick:
     return [("2 entities, <=4 yields", OPS_QUICK, 2, 4, 1),
             ("2 tasks, <=3 yields, nested sub-task calls and zero-timeout Select", OPS_NESTED_CTX, 2, 3, 1, 3, False),
-            ("3 tasks, <=4 yields (<=2 each), sleepers", OPS_SLEEPERS, 3, 4, 1, 2, False)]
+            ("3 tasks, <=4 yields (<=2 each), sleepers", OPS_SLEEPERS, 3, 4, 1, 2, False),
+            ("2 tasks, <=3 yields, socket Send/Recv with partial writes and short reads", OPS_IO_CTX, 2, 3, 1, 3, False),
+            ("2 tasks, <=4 yields (<=2 each), every priority assignment in {1,0.5}", OPS_PRIO, 2, 4, 1, 2, False, True),
+            ("3 tasks, <=3 yields (<=1 each), every priority assignment in {1,0.5}", OPS_PRIO, 3, 3, 1, 1, False, True)]
   return [("2 entities, <=4 yields", OPS_QUICK, 2, 4, 2),
           ("2 entities, <=6 yields (every ordered pair of scripts of <=3 yields)", OPS_QUICK, 2, 6, 0),
           ("2 entities, <=3 yields, extended vocabulary", OPS_QUICK + OPS_EXTRA, 2, 3, 1),
           ("2 tasks, <=4 yields, nested sub-task calls and zero-timeout Select", OPS_NESTED_CTX, 2, 4, 2, 3, False),
           ("3 entities, <=3 yields", OPS_QUICK, 3, 3, 1),
           ("3 entities, <=4 yields", OPS_QUICK, 3, 4, 0),
-          ("3 tasks, <=5 yields (<=2 each), sleepers", OPS_SLEEPERS + ("Se1", "S1", "S0"), 3, 5, 1, 2, False)]
+          ("3 tasks, <=5 yields (<=2 each), sleepers", OPS_SLEEPERS + ("Se1", "S1", "S0"), 3, 5, 1, 2, False),
+          ("2 tasks, <=4 yields, socket Send/Recv with partial writes and short reads", OPS_IO_CTX, 2, 4, 2, 3, False),
+          ("2 tasks, <=4 yields (<=2 each), every priority assignment in {1,0.5}", OPS_PRIO, 2, 4, 2, 2, False, True),
+          ("3 tasks, <=4 yields (<=2 each), every priority assignment in {1,0.5}", OPS_PRIO, 3, 4, 1, 2, False, True)]
 
 
 # ---------------------------------------------------------------------------------------------------
@@ -897,6 +1017,7 @@ THR_PROGRAMS = [
   ((T("n1"), T("n1"), T("S2")), {}),
   ((T("Se0", "S2"), T("S2"), ("T", "once")), {}),
   ((T("Nus", "0"), T("Ncs")), {}),
+  ((T("Tx", "0"), T("Rx", "Rx1")), {1: 0.5}),
 ]
 
 
